@@ -6,6 +6,8 @@ import (
 	"testing"
 	"testing/synctest"
 	"time"
+
+	"github.com/bool64/cache"
 )
 
 const c05aRule = "bursts: SyncRead forced on, one key initially absent / stale-recent / stale-old, 2-8 Gets with the same builder outcome arriving at generated points of a generated schedule (call-out granularity), result TTL 1h, clock jumps <= 1s only, no external ops, no SkipRead, no negative TTL (excluded by construction so the result stays fresh); " +
@@ -136,6 +138,9 @@ func propSuppression(c *Case) {
 			lastFailAt                     time.Time
 			invocations                    int
 			inWindowSeen, afterWindowBuild bool
+			freshUntil                     int64
+			builtAt                        time.Time
+			builtTTL                       time.Duration
 		)
 
 		n := c.Int("gets", 3, 12)
@@ -169,8 +174,27 @@ func propSuppression(c *Case) {
 			tok := tokenFor(key, "seq", i)
 			bErr := &buildErr{key: string(key), task: "seq", n: i}
 
+			// caller context: may carry a TTL, may already be cancelled (a failure is a failure and
+			// must be cached all the same)
+			ctx, cancel := context.WithCancel(context.Background())
+			callerTTL := []time.Duration{0, 0, 2 * time.Hour, 10 * time.Minute}[c.Pick("callerTTL", 4)]
+
+			if callerTTL != 0 {
+				ctx = cache.WithTTL(ctx, callerTTL, false)
+			}
+
+			if c.Weighted("cancelled-caller", 4, 1) == 1 {
+				cancel()
+				c.Class("cancelled-caller")
+			}
+
+			// a value built earlier has to stay fresh for the TTL it was stored with
+			if now.UnixNano() <= freshUntil {
+				c.Assert(hasFresh, "result-expired-early", "the value built at +%v with TTL %v is not fresh any more at +%v", builtAt.Sub(time.Unix(946684800, 0)), builtTTL, now.Sub(time.Unix(946684800, 0)))
+			}
+
 			buf := append([]byte{}, key...)
-			v, err := w.fe.Get(context.Background(), buf, func(context.Context) (string, error) {
+			v, err := w.fe.Get(ctx, buf, func(context.Context) (string, error) {
 				invocations++
 
 				if fails {
@@ -209,8 +233,20 @@ func propSuppression(c *Case) {
 				}
 			}
 
+			cancel()
+
 			if inv > 0 && fails {
 				lastFailErr, lastFailAt = bErr, now
+			}
+
+			if inv > 0 && !fails {
+				builtTTL = callerTTL
+				if builtTTL == 0 {
+					builtTTL = cfg.backendTTL
+				}
+
+				builtAt = now
+				freshUntil = now.Add(builtTTL).UnixNano()
 			}
 		}
 
